@@ -26,5 +26,8 @@ theorem dispatch_probes :
 example : (Probes.slice Gen.ESC_PROBES [Gen.RIS]).length = 1 := by
   decide +kernel
 
+/-- the documented defaults -/
+theorem default_modes : DEFAULT_MODE = [DECAWM, DECTCEM] := by decide
+
 end C15
 end Memterm
